@@ -255,6 +255,10 @@ class _ProbeMixin:
         if ts == 'oracle' and ORACLE is not None:
             menu = self.parameters['ts_menu']
             ts = ORACLE.choose(('ts', self.pid, k), menu, self)
+        elif isinstance(ts, dict) and '$even_odd' in ts:
+            # a timestep that depends on the state the process is shown
+            port, var = ts['$even_odd']
+            ts = 1 if states[port][var] % 2 == 0 else 2
         elif isinstance(ts, dict):
             by = ts['$n']
             ts = by.get(k, by.get(str(k), ts.get('$else', 1)))
